@@ -130,6 +130,95 @@ func SecondRoundScripts() []Script {
 	return out
 }
 
+// ReturningScripts: the "consumed" rule on SECOND incarnations: the same key / chain id / relayer /
+// state validator goes through request -> approval -> removal twice; after the second removal a full
+// approval round of the second request (no fresh one) must change nothing.
+func ReturningScripts() []Script {
+	var out []Script
+	key := func(g *Gen) string { return candKey(g).Key.PubHex() }
+	regCand := func(k func(g *Gen) string, owner func(g *Gen) *Actor) Step {
+		return OpStep(func(g *Gen) *Op { return &Op{Kind: KRegisterCandidate, Actor: owner(g), Node: k(g), Tag: "returning-key"} })
+	}
+	quit := func(k func(g *Gen) string, owner func(g *Gen) *Actor) Step {
+		return OpStep(func(g *Gen) *Op { return &Op{Kind: KQuitNode, Actor: owner(g), Node: k(g)} })
+	}
+	// a candidate that already owns a peer index comes back and leaves again
+	out = append(out, Script{Name: "candidate-returning-second-round", Steps: []Step{
+		regCand(key, ownerN(0)), RoundStep(KApproveCandidate, key, "first-incarnation"), EpochStep(),
+		quit(key, ownerN(0)), EpochStep(),
+		regCand(key, ownerN(0)), RoundStep(KApproveCandidate, key, "second-incarnation"), EpochStep(),
+		quit(key, ownerN(0)), EpochStep(),
+		RoundStep(KApproveCandidate, key, "returning/applied-earlier"),
+		EpochStep(),
+		regCand(key, ownerN(1)), RoundStep(KApproveCandidate, key, "third-incarnation"),
+	}, Tail: 10})
+	// a genesis validator (index assigned by initConfig) quits, returns, quits
+	gen0 := func(g *Gen) string { return g.W.Nodes[0].Key.PubHex() }
+	self0 := func(g *Gen) *Actor { return g.W.Nodes[0] }
+	out = append(out, Script{Name: "genesis-validator-returning-second-round", MinN: 5, Steps: []Step{
+		quit(gen0, self0), EpochStep(),
+		regCand(gen0, self0), RoundStep(KApproveCandidate, gen0, "first-incarnation-as-candidate"), EpochStep(),
+		quit(gen0, self0), EpochStep(),
+		RoundStep(KApproveCandidate, gen0, "returning/applied-earlier"),
+	}, Tail: 10})
+	// side chain: register, quit, register again, update, quit again, then rounds of all three old requests
+	out = append(out, Script{Name: "side_chain-returning-second-round", Steps: []Step{
+		regChain(1, ownerN(0)), RoundStep(KApproveRegisterSC, idStr(1), "first-incarnation"),
+		updChain(1, ownerN(0)), RoundStep(KApproveUpdateSC, idStr(1), "first-incarnation"),
+		quitChain(1, ownerN(0)), RoundStep(KApproveQuitSC, idStr(1), "first-incarnation"),
+		regChain(1, ownerN(1)), RoundStep(KApproveRegisterSC, idStr(1), "second-incarnation"),
+		updChain(1, ownerN(1)), RoundStep(KApproveUpdateSC, idStr(1), "second-incarnation"),
+		quitChain(1, ownerN(1)), RoundStep(KApproveQuitSC, idStr(1), "second-incarnation"),
+		RoundStep(KApproveRegisterSC, idStr(1), "returning/applied-earlier"),
+		RoundStep(KApproveUpdateSC, idStr(1), "returning/applied-earlier"),
+		regChain(1, ownerN(2)), RoundStep(KApproveRegisterSC, idStr(1), "third-incarnation"),
+		RoundStep(KApproveQuitSC, idStr(1), "returning/applied-earlier"),
+		RoundStep(KApproveUpdateSC, idStr(1), "returning/applied-earlier"),
+	}, Tail: 10})
+	// relayer: admitted, removed, admitted again, removed again; rounds of the second-incarnation ids
+	{
+		var reg2, rem2 capture
+		out = append(out, Script{Name: "relayer-returning-second-round", Steps: []Step{
+			OpStep(func(g *Gen) *Op { return &Op{Kind: KRegisterRelayer, Actor: g.W.Owners[0], Addrs: relayers(g, 4)} }),
+			RoundStep(KApproveRegRelayer, LastID(KApproveRegRelayer), "first-incarnation"),
+			OpStep(func(g *Gen) *Op { return &Op{Kind: KRemoveRelayer, Actor: g.W.Owners[0], Addrs: relayers(g, 4)} }),
+			RoundStep(KApproveRemRelayer, LastID(KApproveRemRelayer), "first-incarnation"),
+			OpStep(func(g *Gen) *Op { return &Op{Kind: KRegisterRelayer, Actor: g.W.Owners[1], Addrs: relayers(g, 4)} }),
+			reg2.grab(KApproveRegRelayer),
+			RoundStep(KApproveRegRelayer, reg2.get(), "second-incarnation"),
+			OpStep(func(g *Gen) *Op { return &Op{Kind: KRemoveRelayer, Actor: g.W.Owners[1], Addrs: relayers(g, 4)} }),
+			rem2.grab(KApproveRemRelayer),
+			RoundStep(KApproveRemRelayer, rem2.get(), "second-incarnation"),
+			RoundStep(KApproveRegRelayer, reg2.get(), "returning/applied-earlier"),
+			OpStep(func(g *Gen) *Op { return &Op{Kind: KRegisterRelayer, Actor: g.W.Owners[2], Addrs: relayers(g, 4)} }),
+			RoundStep(KApproveRegRelayer, LastID(KApproveRegRelayer), "third-incarnation"),
+			RoundStep(KApproveRemRelayer, rem2.get(), "returning/applied-earlier"),
+		}, Tail: 10})
+	}
+	// NEO3 state validator: added, removed, added again, removed again
+	{
+		var reg2, rem2 capture
+		sv := func(g *Gen) []string { return []string{g.W.SVU[3]} }
+		out = append(out, Script{Name: "neo3-returning-second-round", Steps: []Step{
+			OpStep(func(g *Gen) *Op { return &Op{Kind: KRegisterSV, Actor: g.W.Owners[0], List: sv(g)} }),
+			RoundStep(KApproveRegSV, LastID(KApproveRegSV), "first-incarnation"),
+			OpStep(func(g *Gen) *Op { return &Op{Kind: KRemoveSV, Actor: g.W.Owners[0], List: sv(g)} }),
+			RoundStep(KApproveRemSV, LastID(KApproveRemSV), "first-incarnation"),
+			OpStep(func(g *Gen) *Op { return &Op{Kind: KRegisterSV, Actor: g.W.Owners[1], List: sv(g)} }),
+			reg2.grab(KApproveRegSV),
+			RoundStep(KApproveRegSV, reg2.get(), "second-incarnation"),
+			OpStep(func(g *Gen) *Op { return &Op{Kind: KRemoveSV, Actor: g.W.Owners[1], List: sv(g)} }),
+			rem2.grab(KApproveRemSV),
+			RoundStep(KApproveRemSV, rem2.get(), "second-incarnation"),
+			RoundStep(KApproveRegSV, reg2.get(), "returning/applied-earlier"),
+			OpStep(func(g *Gen) *Op { return &Op{Kind: KRegisterSV, Actor: g.W.Owners[2], List: sv(g)} }),
+			RoundStep(KApproveRegSV, LastID(KApproveRegSV), "third-incarnation"),
+			RoundStep(KApproveRemSV, rem2.get(), "returning/applied-earlier"),
+		}, Tail: 10})
+	}
+	return out
+}
+
 // ThresholdScripts: for each approval-gated method one request followed by approvals in an order
 // that keeps the count one below the threshold as long as possible (validators interleaved with
 // outsiders, repeat approvers, approvals of the same id under another method and of another id
@@ -273,6 +362,8 @@ func HostileScripts() []Script {
 }
 
 // RegistryScripts: side-chain registry scenarios with non-owners trying every path.
+const maxChainID = uint64(18446744073709551615)
+
 func RegistryScripts() []Script {
 	other := func(g *Gen) *Actor { return g.W.Outsiders[0] }
 	naming := func(kind string, id uint64, signer, named func(g *Gen) *Actor) Step {
@@ -296,18 +387,18 @@ func RegistryScripts() []Script {
 		RoundStep(KApproveRegisterSC, idStr(0), "registration-of-free-id"),
 	}, Tail: 10}
 	return []Script{stale, {Name: "registry-non-owner-paths", Steps: []Step{
-		regChain(4, ownerN(0)),
-		regChain(4, ownerN(1)), // second request for the same id while pending
-		RoundStep(KApproveRegisterSC, idStr(4), "first-round"),
-		regChain(4, ownerN(1)), // request for a registered id
-		RoundStep(KApproveRegisterSC, idStr(4), "round-after-refused-request"),
-		updChain(4, other), naming(KUpdateSideChain, 4, other, ownerN(0)), updChain(4, ownerN(1)),
-		RoundStep(KApproveUpdateSC, idStr(4), "round-without-owner-request"),
-		quitChain(4, other), naming(KQuitSideChain, 4, other, ownerN(0)), quitChain(4, ownerN(1)),
-		RoundStep(KApproveQuitSC, idStr(4), "round-without-owner-request"),
-		updChain(4, ownerN(0)),
-		RoundStep(KApproveUpdateSC, idStr(4), "owner-update"),
-		quitChain(4, ownerN(0)),
-		RoundStep(KApproveQuitSC, idStr(4), "owner-quit"),
+		regChain(maxChainID, ownerN(0)),
+		regChain(maxChainID, ownerN(1)), // second request for the same id while pending
+		RoundStep(KApproveRegisterSC, idStr(maxChainID), "first-round"),
+		regChain(maxChainID, ownerN(1)), // request for a registered id
+		RoundStep(KApproveRegisterSC, idStr(maxChainID), "round-after-refused-request"),
+		updChain(maxChainID, other), naming(KUpdateSideChain, maxChainID, other, ownerN(0)), updChain(maxChainID, ownerN(1)),
+		RoundStep(KApproveUpdateSC, idStr(maxChainID), "round-without-owner-request"),
+		quitChain(maxChainID, other), naming(KQuitSideChain, maxChainID, other, ownerN(0)), quitChain(maxChainID, ownerN(1)),
+		RoundStep(KApproveQuitSC, idStr(maxChainID), "round-without-owner-request"),
+		updChain(maxChainID, ownerN(0)),
+		RoundStep(KApproveUpdateSC, idStr(maxChainID), "owner-update"),
+		quitChain(maxChainID, ownerN(0)),
+		RoundStep(KApproveQuitSC, idStr(maxChainID), "owner-quit"),
 	}, Tail: 20}}
 }
